@@ -85,6 +85,7 @@ func runC10(l *core.Ledger) {
 	l.With(map[string]string{"C09-W6": "C10-N7", "C09-W8": "C10-N7"}, func() { c09W6(l, r) })
 	l.Rule("C10-N9", "the reader fails the calls of the stream that failed, not the calls already written to a stream re-created meanwhile: the fail-all routine is told (or finds out) which stream a pending request was written to")
 	c10N8(l, r)
+	c10N11(l, r)
 	c10N1(l, r)
 	c10N2(l, r)
 	c10N3(l, r)
@@ -938,4 +939,72 @@ func c10N6(l *core.Ledger, r *rt) {
 		}
 	}
 	l.Floor("C10-N6", n, 1, "call sites of the routine that fails all pending calls")
+}
+
+// c10N11: who may give a request up before the sender has it. enqueue answers
+// a request itself only because a context has ended - the request's own, or the
+// node's (Close). The connection flags describe the past: while the stream to a
+// restarted node is being re-created they still say "established and broken",
+// and a call made after the node is listening again would be failed within
+// microseconds without ever being sent. Only the sender, after an attempt of
+// its own (N1), may conclude that the stream is down.
+func c10N11(l *core.Ledger, r *rt) {
+	l.Rule("C10-N11", "enqueue answers a request locally only where a context is seen to have ended (the Done() case or non-nil Err() edge of the request's context or of the node's context): no answer is decided by the connection flags, which lag behind a node that has come back")
+	eq := findEnqueueFn(l, r)
+	if eq == nil {
+		l.Unknown("C10-N11", "anchor/enqueue", token.NoPos, "enqueue not found")
+		return
+	}
+	req := eq.Params[1]
+	isCtxVal := func(v ssa.Value) bool {
+		return sx.All(sx.Origins(v), func(o sx.Origin) bool {
+			if o.Kind == sx.KField && o.Field != nil && o.Field.Name() == "parentCtx" {
+				return true
+			}
+			return sx.IsFieldNamed("ctx", sx.IsParam(req))(o)
+		})
+	}
+	var ended []sx.Edge
+	sx.AllInstrs(eq, func(_ sx.Node, in ssa.Instruction) {
+		switch x := in.(type) {
+		case *ssa.Select:
+			for i, st := range x.States {
+				if st.Dir != types.RecvOnly {
+					continue
+				}
+				if cv, isDone := isDoneOf(st.Chan); isDone && isCtxVal(cv) {
+					if e, found := selectCaseEdge(x, i); found {
+						ended = append(ended, e)
+					}
+				}
+			}
+		case *ssa.If:
+			m := func(o sx.Origin) bool {
+				c, ok := o.V.(*ssa.Call)
+				return o.Kind == sx.KCall && ok && c.Call.IsInvoke() && c.Call.Method.Name() == "Err" && isCtxVal(c.Call.Value)
+			}
+			if isErrNonNil(x, m) != 0 {
+				ended = append(ended, errEdge(x, m, true))
+			}
+		}
+	})
+	n := 0
+	sx.AllInstrs(eq, func(nd sx.Node, in ssa.Instruction) {
+		c, ok := in.(*ssa.Call)
+		if !ok || c.Call.StaticCallee() == nil || !inRepo(c.Call.StaticCallee()) {
+			return
+		}
+		ps := c.Call.StaticCallee().Signature.Params()
+		if ps.Len() != 2 || !isNamed(ps.At(1).Type(), core.RootModule, "response") {
+			return
+		}
+		n++
+		key := fmt.Sprintf("%s/local-answer#%d", fnKey(eq), n)
+		if edgesDominate(eq, ended, nd) {
+			l.OK("C10-N11", key, c.Pos(), "only where a context has ended")
+		} else {
+			l.Bad("C10-N11", key, c.Pos(), "enqueue answers the request itself on a path where no context is seen to have ended (e.g. on the strength of the connection flags): while the stream to a node that has come back is being re-created the flags still say 'broken', and a call made after the node is listening again is failed without ever being sent")
+		}
+	})
+	l.Floor("C10-N11", n, 2, "local answers in enqueue")
 }
